@@ -49,6 +49,8 @@ type EzCfg struct {
 	Sub        Sub      `dials:"sub"`
 	L          []string `dials:"l"`
 	N          int64    `dials:"n"`
+	Key        string   `dials:"key"`
+	KeyFile    string   `dials:"key_file"` // its variable KEY_FILE must never be read as "the file holding KEY"
 }
 
 const (
@@ -90,6 +92,8 @@ type leafVals struct {
 	L     []string
 	N     *int64
 	Path  *string
+	Key   *string
+	KeyF  *string
 }
 
 func word(r *coqfmt.Rng, tag string) string {
@@ -125,6 +129,14 @@ func genLeafs(r *coqfmt.Rng, origin int, setNum, setDen int) leafVals {
 		v := int64(r.Intn(100000)) + int64(origin)*1000000
 		lv.N = &v
 	}
+	if r.Chance(setNum, 2*setDen) {
+		v := word(r, tag)
+		lv.Key = &v
+	}
+	if r.Chance(setNum, 2*setDen) {
+		v := word(r, tag)
+		lv.KeyF = &v
+	}
 	return lv
 }
 
@@ -145,6 +157,12 @@ func render(format string, lv leafVals) string {
 	}
 	if lv.Path != nil {
 		kv = append(kv, [2]string{"configfile", q(*lv.Path)})
+	}
+	if lv.Key != nil {
+		kv = append(kv, [2]string{"key", q(*lv.Key)})
+	}
+	if lv.KeyF != nil {
+		kv = append(kv, [2]string{"key_file", q(*lv.KeyF)})
 	}
 	var lst string
 	if lv.L != nil {
@@ -243,6 +261,12 @@ func envVars(lv leafVals) map[string]string {
 	if lv.Path != nil {
 		m["CONFIGFILE"] = *lv.Path
 	}
+	if lv.Key != nil {
+		m["KEY"] = *lv.Key
+	}
+	if lv.KeyF != nil {
+		m["KEY_FILE"] = *lv.KeyF
+	}
 	return m
 }
 
@@ -272,6 +296,12 @@ func flagArgs(lv leafVals) []string {
 	if lv.Path != nil {
 		a = append(a, "-configfile="+*lv.Path)
 	}
+	if lv.Key != nil {
+		a = append(a, "-key="+*lv.Key)
+	}
+	if lv.KeyF != nil {
+		a = append(a, "-key_file="+*lv.KeyF)
+	}
 	return a
 }
 
@@ -298,6 +328,12 @@ func defaultsOf(lv leafVals) *EzCfg {
 	}
 	if lv.Path != nil {
 		c.ConfigFile = *lv.Path
+	}
+	if lv.Key != nil {
+		c.Key = *lv.Key
+	}
+	if lv.KeyF != nil {
+		c.KeyFile = *lv.KeyF
 	}
 	return c
 }
@@ -402,12 +438,28 @@ func run(raw json.RawMessage) driver.Result {
 		w := v + "x"
 		fileA.B, fileB.B = &w, &w
 	}
+	bigFile := false
 	contentA := render(format, fileA)
 	if kind == "file-malformed" {
 		contentA = "{{{ not : [ valid"
 	}
+	contentB := render(format, fileB)
+	if kind != "file-malformed" && r.Chance(1, 40) {
+		// a config file larger than 1 MiB: insignificant padding in FRONT of the data
+		var pad string
+		switch format {
+		case "json":
+			pad = strings.Repeat(" \n", 600000)
+		case "cue":
+			pad = strings.Repeat("// padding padding padding padding\n", 36000)
+		default:
+			pad = strings.Repeat("# padding padding padding padding\n", 36000)
+		}
+		contentA, contentB = pad+contentA, pad+contentB
+		bigFile = true
+	}
 	os.WriteFile(pathA, []byte(contentA), 0o644)
-	os.WriteFile(pathB, []byte(render(format, fileB)), 0o644)
+	os.WriteFile(pathB, []byte(contentB), 0o644)
 
 	ev := envVars(envL)
 	for k, v := range ev {
@@ -507,7 +559,7 @@ func run(raw json.RawMessage) driver.Result {
 		direct = append(direct, "ez entry point panicked: "+out.err.Error())
 	}
 	implOK := out.err == nil
-	if implOK {
+	{
 		// direct oracle, independent of the model and of the sources' own Value():
 		// per leaf the last of default < file < env < flag that set it
 		fl := fileA
@@ -543,8 +595,23 @@ func run(raw json.RawMessage) driver.Result {
 			if lv.Path != nil {
 				exp.ConfigFile = *lv.Path
 			}
+			if lv.Key != nil {
+				exp.Key = *lv.Key
+			}
+			if lv.KeyF != nil {
+				exp.KeyFile = *lv.KeyF
+			}
 		}
-		if !reflect.DeepEqual(&exp, out.d.View()) {
+		switch {
+		case kind == "file-missing" || kind == "file-malformed":
+			if implOK {
+				direct = append(direct, "a missing or malformed config file must be the entry point's error")
+			}
+		case exp.Valid && !implOK:
+			direct = append(direct, fmt.Sprintf("the fully stacked config is valid and the file is well-formed, but the entry point failed: %v", out.err))
+		case !exp.Valid && implOK:
+			direct = append(direct, "the fully stacked config does not verify, but the entry point succeeded")
+		case implOK && !reflect.DeepEqual(&exp, out.d.View()):
 			direct = append(direct, fmt.Sprintf("first view is not defaults < file < env < flags per leaf: got %+v want %+v", *out.d.View(), exp))
 		}
 	}
@@ -635,6 +702,12 @@ func run(raw json.RawMessage) driver.Result {
 	tags = append(tags, "format-"+format, fmt.Sprintf("watch-%v", watch), fmt.Sprintf("impl-ok-%v", implOK))
 	if updTerm != "None" {
 		tags = append(tags, "with-file-update")
+	}
+	if bigFile {
+		tags = append(tags, "file-over-1MiB")
+	}
+	if envL.KeyF != nil && envL.Key == nil {
+		tags = append(tags, "env-KEY_FILE-without-KEY")
 	}
 	nOrigins := 0
 	for _, lv := range []leafVals{def, fileA, envL, flagL} {
